@@ -14,7 +14,7 @@ SCALAR_CARRIERS = ['pyfloat', 'pyint', 'np.float64', 'np.float32', 'np.float16',
 ARRAY_CARRIERS = ['ndarray-f64', 'ndarray-f32', 'ndarray-i64', 'ndarray-i32', 'ndarray-u8', 'list', 'tuple', 'nested-list',
                   'nested-tuple', 'list-decstr', 'ndarray-2d']
 ROUTES = ['ctor', 'call', 'set_val', 'setitem', 'setitem-slice', 'setitem-2d', 'call-reset', 'recfg', 'setitem-reuse',
-          'resize-signed', 'resize-fmt', 'like-signed']
+          'resize-signed', 'resize-fmt', 'like-signed', 'widen-setitem']
 _OTHER = {'trunc': 'around', 'fix': 'ceil', 'floor': 'trunc', 'ceil': 'floor', 'around': 'fix', 'saturate': 'wrap', 'wrap': 'saturate'}
 
 
@@ -139,6 +139,14 @@ def _snapshot(container):
     return copy.deepcopy(container)
 
 
+def _narrow(w, f):
+    """a word length below w (below 64 when w allows it) that can hold n_frac = f with a non-negative integer part"""
+    for w0 in (16, 40, 62):
+        if w0 < w and f <= w0 - 1:
+            return w0
+    return max(1, w - 1)
+
+
 def do_write(fx, np, route, obj, fmt, modes, n, raw=False):
     """perform one write of obj by the given route; returns the written Fxp (view for setitem routes) and
     the selector that extracts the written elements"""
@@ -158,6 +166,12 @@ def do_write(fx, np, route, obj, fmt, modes, n, raw=False):
             return x, x
         if route == 'setitem':
             x = Fxp(np.zeros(3), s, w, f, **kw)
+            x.set_val(obj, raw=True, index=1)
+            return x, x[1]
+        if route == 'widen-setitem':   # history: an array created in a narrow word, widened by resize (same sign, same n_frac), then an indexed store
+            x = Fxp(np.zeros(3), s, _narrow(w, f), f, **kw)
+            x.resize(n_word=w)
+            x.reset()
             x.set_val(obj, raw=True, index=1)
             return x, x[1]
         raise ValueError('raw ' + route)
@@ -214,6 +228,12 @@ def do_write(fx, np, route, obj, fmt, modes, n, raw=False):
             return x, x[1]
         x[0:n] = obj
         return x, x
+    if route == 'widen-setitem':
+        x = Fxp(np.zeros(3), s, _narrow(w, f), f, **kw)
+        x.resize(n_word=w)
+        x.reset()
+        x[1] = obj
+        return x, x[1]
     if route == 'setitem':          # scalar into one element of an array object
         x = Fxp(np.zeros(3), s, w, f, **kw)
         x[1] = obj
@@ -240,7 +260,17 @@ def observe(fx, np, fmt, modes, vals, carrier, route, props, agg, extra=None, ra
         codes_in = [int(v) for v in vals]
         vals = [F(c) / F(2) ** f for c in codes_in]
     if agg:
-        obj = make_array(np, carrier, vals) if not raw else ([int(c) for c in codes_in] if carrier == 'list' else np.array([int(c) for c in codes_in], dtype=object))
+        if raw or carrier.startswith('pyint-'):      # Python integers (codes, or integer values) in plain / nested containers
+            ints = [int(c) for c in (codes_in if raw else vals)]
+            h = len(ints) // 2
+            kind = carrier[len('pyint-'):] if carrier.startswith('pyint-') else carrier
+            obj = {'list': lambda: ints, 'tuple': lambda: tuple(ints), 'nested-list': lambda: [ints[:h], ints[h:2 * h]],
+                   'nested-tuple': lambda: (tuple(ints[:h]), tuple(ints[h:2 * h])), 'list-1xk': lambda: [ints],
+                   'list-3d': lambda: [[ints[:h]], [ints[h:2 * h]]]}.get(kind, lambda: np.array(ints, dtype=object))()
+            if kind in ('nested-list', 'nested-tuple', 'list-3d') and len(ints) % 2:
+                return None
+        else:
+            obj = make_array(np, carrier, vals)
         if obj is None:
             return None
         try:
